@@ -153,3 +153,35 @@ Definition seg_bound_ok (sq : list ev * list ev) : bool :=
   Nat.leb (List.length seg) ((3 * k + j + 2) * (data + List.length queued + 3)).
 
 Definition obs_c09_bounded_ok (tr : list ev) : bool := forallb seg_bound_ok (poll_segments tr None []).
+
+(** end of a drained history of a live router: every publisher stream that was polled at all gave
+    Pending (or ended / failed) as its LAST answer -- the router does not park right after a stream
+    handed it something without asking that stream again (it would hold no waker of it) *)
+Definition last_stream_answer (j : N) (tr : list ev) : option sresp :=
+  fold_left (fun acc e => match e with EStream j' r => if j =? j' then Some r else acc | _ => acc end) tr None.
+Definition polled_streams (tr : list ev) : list N :=
+  nodup N.eq_dec (flat_map (fun e => match e with EStream j _ => [j] | _ => [] end) tr).
+Definition obs_streams_polled_to_pending (tr : list ev) : bool :=
+  forallb (fun j => match last_stream_answer j tr with
+                    | Some (SItem _) => false
+                    | _ => true
+                    end) (polled_streams tr).
+
+(** the same per poll: a poll that returns Pending for another reason than a sink having just
+    answered Pending has asked every publisher stream it polled until that stream answered Pending
+    (or ended) *)
+Fixpoint split_polls (tr : list ev) (cur : option (list ev)) : list (list ev) :=
+  match tr with
+  | [] => []
+  | EBegin :: r => split_polls r (Some [])
+  | EEnd false :: r => (match cur with Some c => [rev c] | None => [] end) ++ split_polls r None
+  | EEnd true :: r => split_polls r None
+  | e :: r => split_polls r (option_map (cons e) cur)
+  end.
+Definition seg_repolled (seg : list ev) : bool :=
+  match rev seg with
+  | ESinkReady _ RPending :: _ | ESinkFlush _ RPending :: _ => true
+  | _ => forallb (fun j => match last_stream_answer j seg with Some (SItem _) => false | _ => true end)
+                 (polled_streams seg)
+  end.
+Definition obs_repoll_ok (tr : list ev) : bool := forallb seg_repolled (split_polls tr None).
